@@ -1,4 +1,61 @@
-(** Harness glue for C05 (stub: no families yet). *)
-From Coq Require Import List String.
-From KV Require Import Glue.Val.
-Definition c05_run (fam : string) (args : list val) : option string := None.
+(** Harness glue for C05: one line per (haystack, pattern) carrying the prefix/suffix
+    tests, the strips and the three pattern trims; one line per byte string carrying
+    the three whitespace trims. *)
+From Coq Require Import List ZArith Bool String.
+From KV Require Import Base.Prelude Model.Search Model.Trim Model.Utf8 Glue.Val.
+Import ListNotations.
+Local Open Scope string_scope.
+
+(** a suffix / prefix of [h] as offset:len *)
+Definition c05_suffix (h r : list Z) : string := show_view (zlen h - zlen r) (zlen r).
+Definition c05_prefix (r : list Z) : string := show_view 0 (zlen r).
+
+(** the model returns [None] only when it runs out of fuel (proved impossible) *)
+Definition c05_fuel (f : list Z -> string) (o : option (list Z)) : string :=
+  match o with Some r => f r | None => "FUEL" end.
+
+(** [trim_matches]: the result sits after what the start-trim removed *)
+Definition c05_trim_both (h n : list Z) : string :=
+  match trim_start_matches_m h n with
+  | Some l =>
+      match trim_end_matches_m l n with
+      | Some r => show_view (zlen h - zlen l) (zlen r)
+      | None => "FUEL"
+      end
+  | None => "FUEL"
+  end.
+
+Definition c05_pat (h n : list Z) : string :=
+  show_fields
+    [("sw", show_bool (starts_with_m h n));
+     ("ew", show_bool (ends_with_m h n));
+     ("sp", show_opt (c05_suffix h) (strip_prefix_m h n));
+     ("ss", show_opt c05_prefix (strip_suffix_m h n));
+     ("ts", c05_fuel (c05_suffix h) (trim_start_matches_m h n));
+     ("te", c05_fuel c05_prefix (trim_end_matches_m h n));
+     ("tm", c05_trim_both h n)].
+
+(** whitespace: [bytes_trim] = start (end this): offset = what the start-trim removed
+    from the end-trimmed slice *)
+Definition c05_ws (s : list Z) : string :=
+  let e := bytes_trim_end_m s in
+  let b := bytes_trim_m s in
+  show_fields
+    [("t", show_view (zlen e - zlen b) (zlen b));
+     ("ts", c05_suffix s (bytes_trim_start_m s));
+     ("te", c05_prefix e)].
+
+Definition c05_run (fam : string) (args : list val) : option string :=
+  match args with
+  | [h; n] =>
+      if String.eqb fam "c05.str" then Some (c05_pat (as_bytes h) (as_bytes n))
+      else if String.eqb fam "c05.bytes" then Some (c05_pat (as_bytes h) (as_bytes n))
+      else if String.eqb fam "c05.strchar" then Some (c05_pat (as_bytes h) (encode_m (as_Z n)))
+      else if String.eqb fam "c05.byteschar" then Some (c05_pat (as_bytes h) (encode_m (as_Z n)))
+      else None
+  | [s] =>
+      if String.eqb fam "c05.ws" then Some (c05_ws (as_bytes s))
+      else if String.eqb fam "c05.wsstr" then Some (c05_ws (as_bytes s))
+      else None
+  | _ => None
+  end.
